@@ -407,7 +407,7 @@ func (fr *Frame) analyzeLoops() {
 					continue
 				}
 				for _, e := range phi.Edges {
-					if bo, ok := e.(*ssa.BinOp); ok && bo.Op == token.ADD && bo.X == phi {
+					if bo, ok := e.(*ssa.BinOp); ok && (bo.Op == token.ADD || bo.Op == token.SUB) && bo.X == phi {
 						if c, ok := bo.Y.(*ssa.Const); ok && c.Value != nil && c.Value.ExactString() == "1" && li.inLoop[bo.Block()] {
 							ind = append(ind, phi)
 						}
